@@ -951,6 +951,37 @@ func genC15Math(run *Run, r *Rng, nops int) []Op {
 		switch c := r.Intn(100); {
 		case c < 40:
 			add("gochk", Pick(r, one), numTok(r, gridVal(r)))
+		case c < 46:
+			// pow with integral and half-integral exponents over the whole exponent range of the base: results (and
+			// intermediate powers, for an implementation that takes a shortcut) cross the overflow, underflow and
+			// subnormal boundaries in both directions
+			base := math.Ldexp(float64(r.Range(1, 15))/Pick(r, []float64{1, 2, 3, 8}), r.Range(-1074, 1023))
+			if r.Chance(30) {
+				base = math.Pow(10, float64(r.Range(-300, 300)))
+			}
+			if r.Chance(25) {
+				base = -base
+			}
+			y := float64(r.Range(-70, 70))
+			if r.Chance(20) {
+				y += 0.5
+			}
+			if r.Chance(60) {
+				// aim at a boundary: |y| * log2|base| within ±45 of the overflow (1024), the smallest normal (1022)
+				// and the smallest subnormal (1074) exponents, for positive and negative y
+				k := r.Range(1, 66)
+				target := Pick(r, []int{1024, 1022, 1074}) + r.Range(-45, 45)
+				e := target / k
+				if r.Bool() {
+					e = -e
+				}
+				base = math.Ldexp(float64(r.Range(8, 15))/8, e)
+				y = float64(k)
+				if r.Bool() {
+					y = -y
+				}
+			}
+			add("gochk", "pow", c15Num(base), c15Num(y))
 		case c < 52:
 			add("gochk", Pick(r, []string{"pow", "atan2", "fmod"}), numTok(r, gridVal(r)), numTok(r, gridVal(r)))
 		case c < 57:
